@@ -1,9 +1,10 @@
 From KV Require Import Base.Prelude Model.Select.
 
-(* every trial was built by getTrialInstance of its owner, in the owner's namespace, and the labels the algorithm
-   attached to its assignment did not override any label of util.TrialLabels(owner) *)
+(* every trial was built by getTrialInstance of its owner, in the owner's namespace, and carries the owner's name under the
+   experiment-name label (the labels the algorithm attached to its assignment did not override THAT label; any other label
+   of the trial may differ from the experiment's current ones) *)
 Definition trial_wf (exps : list sexp) (t : strial) : Prop :=
-  exists e, nth_error exps (st_owner t) = Some e /\ st_ns t = se_ns e /\ matches (trial_labels e) (st_labels t) = true.
+  exists e, nth_error exps (st_owner t) = Some e /\ st_ns t = se_ns e /\ lookup KEY_EXPERIMENT (st_labels t) = Some (se_name e).
 
 Definition cluster_wf (exps : list sexp) (cl : list strial) : Prop :=
   (forall i j ei ej, nth_error exps i = Some ei -> nth_error exps j = Some ej ->
@@ -22,8 +23,15 @@ Proof.
   destruct (Nat.eqb k' k); [now left|now right].
 Qed.
 
-(* a trial matching the selector of e carries e's name under the experiment key *)
-Lemma matches_key e lab : matches (trial_labels e) lab = true -> lookup KEY_EXPERIMENT lab = Some (se_name e).
+(* a trial matching the selector of e carries e's name under the experiment key, and conversely *)
+Lemma matches_key e lab : matches (name_selector e) lab = true <-> lookup KEY_EXPERIMENT lab = Some (se_name e).
+Proof.
+  unfold matches, name_selector. cbn [forallb fst snd]. rewrite andb_true_r.
+  destruct (lookup KEY_EXPERIMENT lab) as [v|]; [|split; discriminate].
+  rewrite Nat.eqb_eq. split; [intros ->; reflexivity|intros [= ->]; reflexivity].
+Qed.
+
+Lemma matches_all_key e lab : matches (trial_labels e) lab = true -> lookup KEY_EXPERIMENT lab = Some (se_name e).
 Proof.
   unfold matches. rewrite forallb_forall. intro H.
   specialize (H _ (in_set_label KEY_EXPERIMENT (se_name e) (se_labels e))). cbn in H.
@@ -36,10 +44,10 @@ Proof.
   intros (U&W) He. unfold select, own. apply filter_ext_in. intros t It.
   rewrite Forall_forall in W. destruct (W _ It) as (e'&He'&Ns&M).
   destruct (Nat.eqb (st_owner t) eid) eqn:Eo.
-  - apply Nat.eqb_eq in Eo. rewrite Eo, He in He'. inversion He'; subst e'. now rewrite Ns, Nat.eqb_refl, M.
-  - destruct (Nat.eqb (st_ns t) (se_ns e)) eqn:En; [|reflexivity]. cbn.
-    destruct (matches (trial_labels e) (st_labels t)) eqn:Me; [|reflexivity]. exfalso.
-    apply Nat.eqb_eq in En. apply matches_key in M. apply matches_key in Me. rewrite M in Me. inversion Me.
+  - apply Nat.eqb_eq in Eo. rewrite Eo, He in He'. inversion He'; subst e'. rewrite Ns, Nat.eqb_refl. cbn [andb]. now apply matches_key.
+  - destruct (Nat.eqb (st_ns t) (se_ns e)) eqn:En; [|reflexivity]. cbn [andb].
+    destruct (matches (name_selector e) (st_labels t)) eqn:Me; [|reflexivity]. exfalso.
+    apply Nat.eqb_eq in En. apply matches_key in Me. rewrite M in Me. inversion Me.
     apply Nat.eqb_neq in Eo. apply Eo. eapply U; eauto. congruence.
 Qed.
 
@@ -59,7 +67,7 @@ Qed.
 
 (* without the namespace restriction (the pinned tree before the fix) isolation fails *)
 Definition select_no_ns (e : sexp) (cl : list strial) : list strial :=
-  filter (fun t => matches (trial_labels e) (st_labels t)) cl.
+  filter (fun t => matches (name_selector e) (st_labels t)) cl.
 
 Theorem selection_without_namespace_refuted :
   exists exps cl eid e, cluster_wf exps cl /\ nth_error exps eid = Some e /\ select_no_ns e cl <> own eid cl.
@@ -73,5 +81,22 @@ Proof.
     destruct i as [|[|i]], j as [|[|j]]; cbn in Hi, Hj; try reflexivity;
       try (destruct i; discriminate); try (destruct j; discriminate);
       inversion Hi; inversion Hj; subst; cbn in Hns; discriminate.
+  - repeat constructor. eexists. split; [reflexivity|]. split; reflexivity.
+Qed.
+
+(* F19 (repaired by katib 88eea22): selecting with ALL labels the experiment carries now is not ownership -- one experiment,
+   labelled team=1 (key 5), whose trial t100 got the label team=2 from the algorithm's assignment: the trial is the experiment's
+   own, built by getTrialInstance, and is not selected.  The same happens to every trial created before the experiment's
+   labels were changed. *)
+Theorem selection_all_labels_refuted :
+  exists exps cl eid e, cluster_wf exps cl /\ nth_error exps eid = Some e /\ select_all_labels e cl <> own eid cl /\ select e cl = own eid cl.
+Proof.
+  exists [ {| se_ns := 1; se_name := 7; se_labels := [(5, 1)] |} ],
+         [ {| st_ns := 1; st_name := 100; st_labels := [(0, 7); (5, 2)]; st_owner := 0; st_mu := false; st_es := false; st_obs := true |} ],
+         0, {| se_ns := 1; se_name := 7; se_labels := [(5, 1)] |}.
+  split; [|split; [reflexivity|split; [vm_compute; discriminate|vm_compute; reflexivity]]].
+  split.
+  - intros i j ei ej Hi Hj _ _. destruct i as [|i], j as [|j]; cbn in Hi, Hj; try reflexivity;
+      try (destruct i; discriminate); try (destruct j; discriminate).
   - repeat constructor. eexists. split; [reflexivity|]. split; reflexivity.
 Qed.
